@@ -92,6 +92,19 @@ def main(tier, seed):
                 if not ((a & bq) == (bq & a)) or not ((a | bq) == (bq | a)):
                     if len(direct_bad) < 5:
                         direct_bad.append({"q1": qs[i], "q2": qs[j], "why": "a & b != b & a (or |) for hashable operands"})
+    # ... and for operands whose keys differ only in values that Python hashes alike (-1 / -2, in either numeric type)
+    fq = lambda c, v: ("S", "fields", [("k", "a")], ("cmp", c, ("n", v)))
+    twins_ = []
+    for c in ("==", "!=", "<", "<=", ">", ">="):
+        for a_, b_ in ((-1, -2), (-1.0, -2.0), (-1, -2.0)):
+            twins_ += [(fq(c, a_), fq(c, b_)), (("not", fq(c, a_)), ("not", fq(c, b_))), (fq(c, a_), ("not", fq(c, b_)))]
+    twins_ += [(("S", "tags", [("k", "a")], ("cmp", "==", ("s", "-1"))), ("S", "tags", [("k", "a")], ("cmp", "==", ("s", "-2")))),
+               (("and", fq("==", -1), fq(">", 0)), ("and", fq("==", -2), fq(">", 0)))]
+    for qa, qb in twins_:
+        a, bq = M.real_query(tf, qa, shared_builders), M.real_query(tf, qb, shared_builders)
+        comm_checked += 1
+        if (not ((a & bq) == (bq & a)) or not ((a | bq) == (bq | a)) or hash(a & bq) != hash(bq & a) or hash(a | bq) != hash(bq | a)) and len(direct_bad) < 5:
+            direct_bad.append({"q1": qa, "q2": qb, "why": "a & b != b & a (or |, or their hashes differ) for operands whose keys hash alike"})
     f = ck.work / "cases_c17.v"
     qtie.emit_eq_cases(f, qs, eq_rows, hashable)
     rc, out = coqc_file(f, timeout=1500)
